@@ -418,6 +418,7 @@ func mergeStates(sts []*State) *State {
 		rs = append(rs, s.Reach)
 	}
 	out.Reach = Or(rs...)
+	rel := relConds(rs)
 	// heaps
 	keys := map[string]bool{}
 	for _, s := range live {
@@ -428,7 +429,7 @@ func mergeStates(sts []*State) *State {
 	for k := range keys {
 		acc := live[len(live)-1].heapGet(k)
 		for i := len(live) - 2; i >= 0; i-- {
-			acc = Ite(live[i].Reach, live[i].heapGet(k), acc)
+			acc = Ite(rel[i], live[i].heapGet(k), acc)
 		}
 		out.Heap[k] = acc
 	}
@@ -458,7 +459,7 @@ func mergeStates(sts []*State) *State {
 			if acc == nil {
 				acc = g
 			} else {
-				acc = Ite(live[i].Reach, g, acc)
+				acc = Ite(rel[i], g, acc)
 			}
 		}
 		out.Ghost[k] = acc
@@ -479,10 +480,55 @@ func mergeStates(sts []*State) *State {
 			if acc == nil {
 				acc = v
 			} else {
-				acc = iteValue(live[i].Reach, v, acc)
+				acc = iteValue(rel[i], v, acc)
 			}
 		}
 		out.Locals[k] = acc
 	}
 	return out
+}
+
+// relConds: the conditions that tell mutually exclusive alternatives apart, with the conjuncts they all share removed.
+// Under the merged path condition (which contains the shared part) an ite over the reduced conditions means the same.
+func relConds(reaches []*Term) []*Term {
+	if len(reaches) < 2 {
+		return reaches
+	}
+	common := map[int]bool{}
+	for _, c := range orConj(reaches[0]) {
+		common[c.id] = true
+	}
+	for _, r := range reaches[1:] {
+		here := map[int]bool{}
+		for _, c := range orConj(r) {
+			here[c.id] = true
+		}
+		for id := range common {
+			if !here[id] {
+				delete(common, id)
+			}
+		}
+	}
+	if len(common) == 0 {
+		return reaches
+	}
+	out := make([]*Term, len(reaches))
+	for i, r := range reaches {
+		var rest []*Term
+		for _, c := range orConj(r) {
+			if !common[c.id] {
+				rest = append(rest, c)
+			}
+		}
+		out[i] = And(rest...)
+	}
+	return out
+}
+
+func reachesOf(sts []*State) []*Term {
+	var rs []*Term
+	for _, s := range sts {
+		rs = append(rs, s.Reach)
+	}
+	return rs
 }
